@@ -31,12 +31,45 @@ func render(objs []slip.Object) string {
 		if i > 0 {
 			sb.WriteString(" ;; ")
 		}
-		sb.WriteString(sx.Typed(o))
+		sb.WriteString(sx.Typed(expand(o)))
 		if o != nil {
 			sb.WriteString(" :" + string(o.Hierarchy()[0]))
 		}
 	}
 	return sb.String()
+}
+
+// expand replaces the objects the reader makes for ' ` , ,@ and #' (function call objects whose printed form is the
+// prefix syntax again, so that `(comma @b)` and `(comma-at b)` both print as ,@b) by lists of the function name and the
+// arguments, all the way down: two deliveries agree only if they built the same calls.
+func expand(o slip.Object) slip.Object {
+	switch to := o.(type) {
+	case slip.List:
+		out := make(slip.List, len(to))
+		for i, e := range to {
+			out[i] = expand(e)
+		}
+		return out
+	case slip.Tail:
+		return slip.Tail{Value: expand(to.Value)}
+	case *slip.Vector:
+		l := to.AsList()
+		out := make(slip.List, 0, len(l)+1)
+		out = append(out, slip.Symbol("#vector"))
+		for _, e := range l {
+			out = append(out, expand(e))
+		}
+		return out
+	case slip.Funky:
+		args := to.GetArgs()
+		out := make(slip.List, 0, len(args)+1)
+		out = append(out, slip.Symbol("#call:"+strings.ToLower(to.GetName())))
+		for _, e := range args {
+			out = append(out, expand(e))
+		}
+		return out
+	}
+	return o
 }
 
 func classify(fn func() []slip.Object) (r result) {
